@@ -64,8 +64,10 @@ def build(run):
     v0a = ufl.Argument(V, 0, 0)
     v0b = ufl.Argument(V, 0, 1)
     AV = [(), ((v0, False),), ((v0, True),), ((v1, False),), ((v0, True), (v1, False))]
+    # parts of one argument number (block systems): v0^0 and v0^1 are both "argument 0"; a node is linear in argument 0 jointly
+    AVP = [((v0a, False),), ((v0b, False),)]
     if thorough:
-        AV += [((v0, False), (v1, False)), ((v0a, False),), ((v0a, False), (v0b, False))]
+        AV += [((v0, False), (v1, False)), ((v0a, False), (v0b, False))]
     for nm in ("terminal", "argument", "nonlinear_operator", "sum", "division", "product", "inner", "outer", "linear_operator",
                "conj", "variable", "conditional", "linear_indexed_type", "list_tensor"):
         run.function(getattr(ArityChecker, nm), f"ArityChecker.{nm}")
@@ -196,6 +198,12 @@ def build(run):
             if k >= 3 and sum(1 for a in avs if a) > 2:
                 continue
             tmpl_ob(t, avs)
+        # operands depending on different parts of the same argument number (parted and unparted arguments cannot be mixed in one
+        # expression, so these form their own cells)
+        if k == 2 or (k == 3 and thorough):
+            for avs in itertools.product([()] + AVP, repeat=k):
+                if sum(1 for a in avs if a) >= 2:
+                    tmpl_ob(t, avs)
 
     # ---- dispatch: every registered type reaches a handler that is sound for it
     def dispatch():
